@@ -216,6 +216,9 @@ Definition check_case (c : conv_case) : list N :=
   match case_generate c with
   | GOk tab => if k_outcome c =? 0
                then flat_map (check_run (k_env c) tab (case_ftable c)) (k_runs c)
+                    (* 11: no record of the converter has skipCopySameType, yet a method body is not share-free: the
+                       hypothesis of the deep-copy theorem (C04_no_shared_address) would not hold for this table *)
+                    ++ (if existsb (fun m => c_SkipCopySameType (m_common (g_conf m))) tab || sf_tableb tab then [] else [11])
                     ++ match k_imports c with
                        | Some obs => (if same_set_N (imports (k_env c) (k_out c) tab) obs then [] else [7])
                                      ++ (if same_set_str (function_names tab) (k_funcs c) then [] else [8])
